@@ -72,8 +72,8 @@ func NewInverseWishartDistribution(nu Scalar, s Matrix) (*InverseWishartDistribu
   z.Sub(z, t1.Mlgamma(t1.Div(nu, ConstFloat64(2.0)), n))                                // Gamma_n(nu/2)
 
   result := InverseWishartDistribution{
-    Nu  : nu,
-    S   : s,
+    Nu  : nu.CloneScalar(),
+    S   : s .CloneMatrix(),
     SDet: sDet,
     d   : d,
     z   : z,
